@@ -137,7 +137,7 @@ def lib_store(st, be, op, r=None):
     if t == 'bit':
         form = op.get('form', 'int')
         v = op['v']
-        return call(b.store_bit, {'int': int(v), 'bool': bool(v), 'str': str(int(v))}.get(form, int(v)))
+        return call(b.store_bit, {'int': int(v), 'bool': bool(v), 'str': str(int(v)), 'tvm': tvm_bits(str(int(v)))}.get(form, int(v)))
     if t == 'bool':
         return call(b.store_bool, bool(op['v']))
     if t == 'bits':
@@ -152,18 +152,38 @@ def lib_store(st, be, op, r=None):
     if t == 'snake_bytes':
         return call(b.store_snake_bytes, bytes.fromhex(op['v']))
     if t == 'snake_string':
+        if op.get('prefix'):
+            return call(b.store_snake_string, op['v'], True)
         return call(b.store_snake_string, op['v'])
     if t == 'address':
         k = op['k']
         if k == 'none':
             return call(b.store_address, None)
+        form = op.get('form')
         if k == 'ext':
-            return call(b.store_address, ExternalAddress(op['v'], op['n']))
+            v, n = op['v'], op['n']
+            if form == 'bytes' and v >= 0:
+                ea = ExternalAddress(v.to_bytes((n + 7) // 8, 'big'), n)
+            elif form == 'hex' and v >= 0:
+                ea = ExternalAddress(v.to_bytes((n + 7) // 8, 'big').hex(), n)
+            elif form == 'auto' and v >= 0 and v.bit_length() == n:
+                ea = ExternalAddress(v)
+            else:
+                ea = ExternalAddress(v, n)
+            if form == 'to_cell':
+                return call(lambda: b.store_slice(ea.to_cell().begin_parse()))
+            return call(b.store_address, ea)
         a = Address((op['wc'], bytes.fromhex(op['acc'])))
         if op.get('any'):
             a.set_anycast(op['any'][0], op['any'][1])
-        if op.get('form') == 'str' and not op.get('any'):
+        if form == 'str' and not op.get('any'):
             return call(b.store_address, a.to_str(is_user_friendly=False))
+        if form == 'friendly' and not op.get('any'):
+            return call(b.store_address, a.to_str())
+        if form == 'to_cell' and not op.get('any'):
+            # Address.to_cell() is a helper outside the builder: it is only used where its output is the address's
+            # full encoding (no anycast); what it does with anycast is not C06's subject
+            return call(lambda: b.store_slice(a.to_cell().begin_parse()))
         return call(b.store_address, a)
     if t in ('maybe_ref', 'dict'):
         c = None if 'c' not in r else st.cells[r['c']]['lib']
@@ -453,7 +473,7 @@ class BuildWorld(HistoryWorld):
         elif t == 'bit':
             if room_bits < 1:
                 return None
-            op.update(v=rng.getrandbits(1), form=rng.choice(['int', 'bool', 'str']))
+            op.update(v=rng.getrandbits(1), form=rng.choice(['int', 'bool', 'str', 'tvm']))
         elif t == 'bool':
             if room_bits < 1:
                 return None
@@ -479,7 +499,8 @@ class BuildWorld(HistoryWorld):
                 ln = min(room_bits - 11, rng.choice([1, 8, 9, 255, 256, 511, rng.randint(1, 511)]))
                 if ln < 1:
                     return None
-                op.update(k='ext', n=ln, v=rng.choice([0, (1 << ln) - 1, rng.getrandbits(ln)]))
+                op.update(k='ext', n=ln, v=rng.choice([0, (1 << ln) - 1, rng.getrandbits(ln), rng.getrandbits(ln) | (1 << (ln - 1))]),
+                          form=rng.choice(['int', 'int', 'bytes', 'hex', 'auto', 'to_cell']))
             else:
                 any_ = None
                 need = 267
@@ -490,7 +511,7 @@ class BuildWorld(HistoryWorld):
                 if room_bits < need:
                     return None
                 op.update(k='std', wc=rng.choice([-128, -1, 0, 1, 127, rng.randint(-128, 127)]),
-                          acc=bytes(rng.getrandbits(8) for _ in range(32)).hex(), any=any_, form=rng.choice(['obj', 'str']))
+                          acc=bytes(rng.getrandbits(8) for _ in range(32)).hex(), any=any_, form=rng.choice(['obj', 'obj', 'str', 'friendly', 'to_cell']))
         elif t in ('maybe_ref', 'dict', 'ref'):
             if t != 'ref' and room_bits < 1:
                 return None
@@ -562,6 +583,8 @@ class BuildWorld(HistoryWorld):
                     op = {'op': 'store', 'b': bidx, 't': 'snake_bytes', 'v': bytes(rng.getrandbits(8) for _ in range(ln)).hex()}
                 else:
                     op = {'op': 'store', 'b': bidx, 't': 'snake_string', 'v': _rtext(rng, ln)}
+                    if rng.random() < 0.3 and (ln + 1 <= avail or room_refs >= 1):
+                        op['prefix'] = True
                 q.append(op)
                 items.append(op)
         q.append({'op': 'end_cell', 'b': bidx})
@@ -985,7 +1008,7 @@ class BuildWorld(HistoryWorld):
 
     def _store_snake(self, st, be, op, ctx, rem_bits, rem_refs):
         t = op['t']
-        data = bytes.fromhex(op['v']) if t == 'snake_bytes' else op['v'].encode()
+        data = bytes.fromhex(op['v']) if t == 'snake_bytes' else (b'\x00' if op.get('prefix') else b'') + op['v'].encode()
         avail = rem_bits // 8
         must_refuse = len(data) > avail and rem_refs < 1
         if len(data) > avail:
